@@ -16,6 +16,27 @@ UTC = datetime.timezone.utc
 T0 = datetime.datetime(2000, 1, 1, tzinfo=UTC)
 
 
+class CallableObject:
+    """An object with an async ``__call__``: a legitimate handler / job that has neither __name__ nor __qualname__."""
+
+    def __init__(self, fn):
+        self._fn = fn
+
+    async def __call__(self, *a):
+        return await self._fn(*a)
+
+
+def shaped(fn, k: int):
+    """Handlers and jobs come as plain coroutine functions, ``functools.partial`` objects and callable instances."""
+    import functools
+    kind = ("fn", "partial", "fn", "obj", "fn")[k % 5]
+    if kind == "partial":
+        return functools.partial(fn)
+    if kind == "obj":
+        return CallableObject(fn)
+    return fn
+
+
 def failure(msg: str, k: int) -> BaseException:
     """Handlers and jobs fail in the ways real ones do: with and without a message (a bare ``raise RuntimeError``, a
     failed ``assert``, the ``TimeoutError`` of ``asyncio.wait_for`` carry no arguments)."""
@@ -127,6 +148,8 @@ class BtRun:
                 h = self._mk_handler(sub)
                 if sub.get("bound"):
                     h = Holder(h)
+                elif not sub.get("plain"):
+                    h = shaped(h, sub["id"])
                 self.handlers[sub["id"]] = h
             if isinstance(h, Holder):
                 h = h.on_event
@@ -174,6 +197,12 @@ class BtRun:
                 run._schedule(child, by=f"job{jid}", base_now=run._now())
             tr.add("end", "job", jid, None, when, run._now())
             if spec.get("fail"):
+                if jid % 4 == 3:
+                    # the job ends with a CancelledError of its own making (it cancelled a helper task and awaited it):
+                    # nobody cancelled the run
+                    helper = asyncio.ensure_future(asyncio.sleep(3600))
+                    helper.cancel()
+                    await helper
                 raise failure(f"job {jid} fails", jid)
         if spec.get("plain"):
             def plain_job():
@@ -183,7 +212,7 @@ class BtRun:
                     raise failure(f"job {jid} fails while being called", jid + 1)
                 return job()
             return plain_job
-        return job
+        return shaped(job, jid + 2)
 
     def _mk_handler(self, sub: Dict[str, Any]):
         run = self
@@ -246,7 +275,8 @@ class BtRun:
             try:
                 loop.run_until_complete(asyncio.wait_for(self.d.run(stop_signals=[]), timeout=60))
                 self.outcome = "returned"
-            except Exception as ex:
+            except (Exception, asyncio.CancelledError) as ex:
+                # nobody cancels these runs from outside: a CancelledError coming out of run() is an outcome to judge
                 self.outcome = f"raised {type(ex).__name__}: {ex}"
         finally:
             logging.setLogRecordFactory(f0)   # keep scenarios independent (C14 checks the factory itself)
